@@ -476,6 +476,7 @@ Proof.
   - inversion H; subst; clear H. eapply upd_inv; [exact I|exact Ha|reflexivity|reflexivity|wfc_tac Wr|wsimp; lia].
   - (* ITaskStart: the only instruction of a fresh delivery goroutine *)
     assert (rest = []) by (apply (W [] (ITaskStart p h) rest eq_refl); reflexivity). subst rest.
+    destruct (h_seq (r_spec h) && negb (at_head (queue s (r_id h)) a)); [discriminate|].
     destruct (is_cancelled s (pb_ctx (get_pub s p)) && negb (h_once (r_spec h))); inversion H; subst; clear H.
     + eapply upd_inv; [exact I|exact Ha|reflexivity|reflexivity| |wsimp; cbn; lia].
       intros pre x post E _. destruct pre as [|y pre]; cbn in E; inversion E; [reflexivity|destruct pre; discriminate].
@@ -1008,10 +1009,16 @@ Qed.
 Theorem task_start_decision P cfg s a p h rest s' ls :
   step_instr P cfg s a (ITaskStart p h) rest = Some (s', ls) ->
   assoc_get (code s') a = Some (if is_cancelled s (pb_ctx (get_pub s p)) && negb (h_once (r_spec h)) then ITaskDone :: rest
-                                else call_handler P p h true (c_obs cfg) ++ rest) /\ ls = [].
+                                else call_handler P p h true (c_obs cfg) ++ rest) /\ ls = [] /\
+  (h_seq (r_spec h) = true -> at_head (queue s (r_id h)) a = true).
 Proof.
   intros H. cbn [step_instr] in H.
-  destruct (is_cancelled s (pb_ctx (get_pub s p)) && negb (h_once (r_spec h))); inversion H; subst; split; try apply code_cont; reflexivity.
+  destruct (h_seq (r_spec h)) eqn:Hs; cbn [andb] in H.
+  - destruct (at_head (queue s (r_id h)) a) eqn:Hh; cbn [negb] in H; [|discriminate].
+    destruct (is_cancelled s (pb_ctx (get_pub s p)) && negb (h_once (r_spec h))); inversion H; subst;
+      (split; [apply code_cont|split; [reflexivity|intros _; reflexivity]]).
+  - destruct (is_cancelled s (pb_ctx (get_pub s p)) && negb (h_once (r_spec h))); inversion H; subst;
+      (split; [apply code_cont|split; [reflexivity|discriminate]]).
 Qed.
 
 (* context-aware handlers are entered with the publish context *)
@@ -1612,7 +1619,8 @@ Qed.
 Theorem only_these_block P cfg s a i rest :
   step_instr P cfg s a i rest = None ->
   (exists h, i = ILock h) \/ (exists p, i = IPersistLock p) \/ i = IDo AWait \/ (exists sid, i = IWaiterDone sid) \/
-  (exists sid c, i = IShutdownSelect sid c) \/ i = ICrashed.
+  (exists sid c, i = IShutdownSelect sid c) \/ i = ICrashed \/
+  (exists p h, i = ITaskStart p h /\ h_seq (r_spec h) = true /\ at_head (queue s (r_id h)) a = false).
 Proof.
   intros H. destruct i; cbn [step_instr] in H;
     try solve [discriminate H];
@@ -1620,11 +1628,14 @@ Proof.
     try solve [right; left; eauto];
     try solve [right; right; right; left; eauto];
     try solve [right; right; right; right; left; eauto];
-    try solve [right; right; right; right; right; reflexivity];
+    try solve [right; right; right; right; right; left; reflexivity];
     try solve [break_head H; discriminate H].
-  (* IDo *)
-  destruct a0; cbn [step_instr] in H; try solve [break_head H; discriminate H]; try discriminate H.
-  right. right. left. reflexivity.
+  - (* IDo *)
+    destruct a0; cbn [step_instr] in H; try solve [break_head H; discriminate H]; try discriminate H.
+    right. right. left. reflexivity.
+  - (* ITaskStart: not its turn yet *)
+    do 6 right. exists p, h. destruct (h_seq (r_spec h)); cbn [andb] in H; [|break_head H; discriminate H].
+    destruct (at_head (queue s (r_id h)) a); cbn [negb] in H; [break_head H; discriminate H|]. auto.
 Qed.
 
 Lemma self_delivery_blocks :
@@ -1954,6 +1965,471 @@ Proof.
 Qed.
 
 (* ================================================================== *)
+(* C07: the turn queue of an Async+Sequential handler.  Deliveries are queued by the publishing goroutine at dispatch;
+   a delivery goroutine starts only when it heads the queue and leaves it when it is over.  Over every schedule: the
+   queue holds exactly the dispatched deliveries that have not finished, in dispatch order (q_fifo); everybody behind
+   the head has not started (q_wait); everybody in it is an unfinished delivery (q_live). *)
+Definition is_tstart (i : instr) : bool := match i with ITaskStart _ _ => true | _ => false end.
+Definition nots (c : list instr) : Prop := forall i, In i c -> is_tstart i = false.
+Lemma nots_app a b : nots a -> nots b -> nots (a ++ b).
+Proof. intros Ha Hb i Hi. apply in_app_or in Hi. destruct Hi; auto. Qed.
+Lemma nots_cons i c : is_tstart i = false -> nots c -> nots (i :: c).
+Proof. intros Hi Hc x [<-|Hx]; auto. Qed.
+Lemma nots_nil : nots []. Proof. intros i []. Qed.
+Lemma nots_acts l : nots (acts l).
+Proof. intros i Hi. unfold acts in Hi. apply in_map_iff in Hi. destruct Hi as [a [<- _]]. reflexivity. Qed.
+Lemma nots_entries p l : nots (map (IEntry p) l).
+Proof. intros i Hi. apply in_map_iff in Hi. destruct Hi as [a [<- _]]. reflexivity. Qed.
+Lemma nots_shards l : nots (map IClearShard l).
+Proof. intros i Hi. apply in_map_iff in Hi. destruct Hi as [a [<- _]]. reflexivity. Qed.
+Lemma nots_after_recover cfg p h async panicked : nots (after_recover cfg p h async panicked).
+Proof.
+  unfold after_recover. repeat apply nots_app;
+    [destruct (h_seq (r_spec h)) | destruct (panicked && c_panic_handler cfg) | destruct (c_obs cfg) | destruct async];
+    try apply nots_nil; intros i [<-|[]]; reflexivity.
+Qed.
+Lemma nots_call_handler P p h async obs : nots (call_handler P p h async obs).
+Proof.
+  unfold call_handler. repeat apply nots_app; try apply nots_acts;
+    [destruct obs | destruct (h_seq (r_spec h)) | | ]; try apply nots_nil; intros i [<-|[]]; reflexivity.
+Qed.
+Lemma nots_unwind l p h async r : unwind l = Some (p, h, async, r) -> nots l -> nots r.
+Proof.
+  intros U Hl. apply unwind_spec in U. destruct U as [pre [-> _]]. intros i Hi. apply Hl.
+  apply in_or_app. right. right. exact Hi.
+Qed.
+
+Ltac nt_tac Nr :=
+  repeat first
+    [ exact Nr
+    | apply nots_nil
+    | apply nots_after_recover
+    | apply nots_call_handler
+    | apply nots_acts
+    | apply nots_entries
+    | apply nots_shards
+    | apply nots_cons; [reflexivity|]
+    | apply nots_app
+    | match goal with |- nots (if ?b then _ else _) => destruct b end
+    | match goal with |- nots (match ?b with _ => _ end) => destruct b end
+    | (let i := fresh in let H := fresh in intros i H; destruct H as [<-|[]]; reflexivity)
+    | (let i := fresh in let H := fresh in intros i H; destruct H) ].
+
+(* no step puts a delivery start into the stepping goroutine's own code *)
+Lemma step_nots P cfg s a i rest s' ls :
+  nots rest -> step_instr P cfg s a i rest = Some (s', ls) ->
+  exists newc, assoc_get (code s') a = Some newc /\ nots newc.
+Proof.
+  intros Nr H. destruct i; cbn [step_instr] in H.
+  all: try (break_head H; try discriminate; inversion H; subst; clear H;
+            solve [eexists; split;
+                   [first [apply code_cont | (cbn [cont set_code code]; rewrite ?upd_pub_code; apply assoc_get_set_same)]
+                   | nt_tac Nr]]).
+  (* IDo *)
+  destruct a0; cbn [step_instr] in H; break_head H; try discriminate; inversion H; subst; clear H;
+    try solve [eexists; split;
+               [first [apply code_cont | (cbn [cont set_code code]; rewrite ?upd_pub_code; apply assoc_get_set_same)]
+               | nt_tac Nr]].
+  (* APanic recovered *)
+  match goal with U : unwind rest = Some (?p, ?h, ?async, ?r) |- _ => pose proof (nots_unwind rest p h async r U Nr) as Nr2 end.
+  eexists. split; [apply code_cont|]. apply nots_app; [apply nots_after_recover | exact Nr2].
+Qed.
+
+Lemma upd_pub_turnq s p f : turnq (upd_pub s p f) = turnq s.
+Proof. unfold upd_pub. destruct (assoc_get (pubs s) p); reflexivity. Qed.
+Lemma upd_pub_turnlog s p f : turnlog (upd_pub s p f) = turnlog s.
+Proof. unfold upd_pub. destruct (assoc_get (pubs s) p); reflexivity. Qed.
+Lemma upd_pub_turndone s p f : turndone (upd_pub s p f) = turndone s.
+Proof. unfold upd_pub. destruct (assoc_get (pubs s) p); reflexivity. Qed.
+
+(* only an asynchronous dispatch and the end of a delivery touch the queues *)
+Lemma step_turn_frame P cfg s a i rest s' ls :
+  step_instr P cfg s a i rest = Some (s', ls) ->
+  i <> ITaskDone -> (forall p h, i = IDispatch p h -> h_async (r_spec h) = false) ->
+  turnq s' = turnq s /\ turnlog s' = turnlog s /\ turndone s' = turndone s.
+Proof.
+  intros H Hd Hp. destruct i; cbn [step_instr] in H.
+  all: try (break_head H; try discriminate; inversion H; subst; clear H;
+            solve [cbn [cont set_code set_registry turnq turnlog turndone];
+                   rewrite ?upd_pub_turnq, ?upd_pub_turnlog, ?upd_pub_turndone; auto]).
+  - (* IDispatch *)
+    rewrite (Hp p h eq_refl) in H. break_head H; inversion H; subst; clear H; cbn [cont set_code turnq turnlog turndone]; auto.
+  - (* ITaskDone *) contradiction Hd. reflexivity.
+Qed.
+
+Ltac fin_others :=
+  let x := fresh "x" in let Hx := fresh "Hx" in
+  intros x Hx; left; cbn [cont set_code code]; rewrite ?upd_pub_code; cbn [code];
+  rewrite assoc_get_set_other by congruence; reflexivity.
+
+(* the other goroutines: untouched, except for Shutdown's new waiter *)
+Lemma step_others P cfg s a i rest s' ls :
+  step_instr P cfg s a i rest = Some (s', ls) -> a <> next_actor s ->
+  (forall p h, i = IDispatch p h -> h_async (r_spec h) = false) ->
+  forall b, b <> a ->
+    assoc_get (code s') b = assoc_get (code s) b \/
+    (b = next_actor s /\ assoc_get (code s') b = Some [IWaiterDone (next_sid s)]).
+Proof.
+  intros H Hna Hp.
+  destruct i; cbn [step_instr] in H.
+  all: try (break_head H; try discriminate; inversion H; subst; clear H; solve [fin_others]).
+  - (* IDo *)
+    destruct a0; cbn [step_instr] in H; break_head H; try discriminate; inversion H; subst; clear H;
+      try solve [fin_others].
+    intros b Hb. cbn [cont set_code code]. rewrite assoc_get_set_other by congruence.
+    destruct (Nat.eq_dec (next_actor s) b) as [<-|N].
+    + right. split; [reflexivity | apply assoc_get_set_same].
+    + left. rewrite assoc_get_set_other by exact N. reflexivity.
+  - (* IDispatch *)
+    rewrite (Hp p h eq_refl) in H. break_head H; inversion H; subst; clear H; fin_others.
+Qed.
+
+(* the queue of one registration, and what the two queue operations do to it *)
+Definition qof (tq : list (nat * list actor)) (rid : nat) : list actor :=
+  match assoc_get tq rid with Some q => q | None => [] end.
+Lemma queue_qof s rid : queue s rid = qof (turnq s) rid. Proof. reflexivity. Qed.
+Lemma qof_set_same tq rid q : qof (assoc_set tq rid q) rid = q.
+Proof. unfold qof. rewrite assoc_get_set_same. reflexivity. Qed.
+Lemma qof_set_other tq rid r q : rid <> r -> qof (assoc_set tq rid q) r = qof tq r.
+Proof. intros N. unfold qof. rewrite assoc_get_set_other by exact N. reflexivity. Qed.
+Lemma qof_pop tq a rid : qof (pop_turn tq a) rid = if at_head (qof tq rid) a then tl (qof tq rid) else qof tq rid.
+Proof.
+  unfold qof, pop_turn. induction tq as [|[k q] r IH]; [reflexivity|].
+  cbn [map assoc_get fst snd]. destruct (Nat.eqb k rid); [reflexivity | exact IH].
+Qed.
+Lemma pop_keys tq a : map fst (pop_turn tq a) = map fst tq.
+Proof. unfold pop_turn. rewrite map_map. reflexivity. Qed.
+Lemma at_head_spec q a : at_head q a = true <-> exists more, q = a :: more.
+Proof.
+  destruct q as [|b more]; cbn [at_head]; split.
+  - discriminate.
+  - intros [more E]. discriminate.
+  - intros E. apply Nat.eqb_eq in E. subst. eauto.
+  - intros [more' E]. inversion E. apply Nat.eqb_refl.
+Qed.
+
+Definition on (rid : nat) (l : list (nat * actor)) : list actor := map snd (filter (fun x => Nat.eqb (fst x) rid) l).
+Lemma on_app rid a b : on rid (a ++ b) = on rid a ++ on rid b.
+Proof. unfold on. rewrite filter_app, map_app. reflexivity. Qed.
+Lemma on_popped_none tq a rid : ~ In rid (map fst tq) -> on rid (popped tq a) = [].
+Proof.
+  induction tq as [|[k q] r IH]; intros Hn; [reflexivity|].
+  unfold popped. cbn [flat_map fst snd]. fold (popped r a). rewrite on_app, IH by (intro Hx; apply Hn; right; exact Hx).
+  destruct (at_head q a); [|reflexivity]. unfold on. cbn [filter fst].
+  destruct (Nat.eqb k rid) eqn:E; [|reflexivity]. apply Nat.eqb_eq in E. exfalso. apply Hn. left. exact E.
+Qed.
+Lemma on_popped tq a rid : NoDup (map fst tq) -> on rid (popped tq a) = if at_head (qof tq rid) a then [a] else [].
+Proof.
+  induction tq as [|[k q] r IH]; intros ND; [reflexivity|].
+  cbn [map fst] in ND. apply NoDup_cons_iff in ND. destruct ND as [Hk ND].
+  unfold popped. cbn [flat_map fst snd]. fold (popped r a). rewrite on_app.
+  unfold qof. cbn [assoc_get]. destruct (Nat.eqb k rid) eqn:E.
+  - apply Nat.eqb_eq in E. subst k. rewrite (on_popped_none r a rid Hk), app_nil_r.
+    destruct (at_head q a); [|reflexivity]. unfold on. cbn [filter fst]. rewrite Nat.eqb_refl. reflexivity.
+  - rewrite (IH ND). unfold qof.
+    destruct (at_head q a); [|reflexivity]. unfold on. cbn [filter fst]. rewrite E. reflexivity.
+Qed.
+
+Record qinv (s : bstate) : Prop := {
+  q_live : forall rid b, In b (queue s rid) -> exists c, assoc_get (code s) b = Some c /\ weight c = 1;
+  q_wait : forall rid hd more b, queue s rid = hd :: more -> In b more ->
+             exists p h, assoc_get (code s) b = Some [ITaskStart p h] /\ r_id h = rid /\ h_seq (r_spec h) = true;
+  q_nodup : forall rid, NoDup (queue s rid);
+  q_one : forall r1 r2 b, In b (queue s r1) -> In b (queue s r2) -> r1 = r2;
+  q_fresh : forall b p h, assoc_get (code s) b = Some [ITaskStart p h] -> h_seq (r_spec h) = true -> In b (queue s (r_id h));
+  q_sole : forall b c, assoc_get (code s) b = Some c -> nots c \/ exists p h, c = [ITaskStart p h];
+  q_fifo : forall rid, on rid (turnlog s) = on rid (turndone s) ++ queue s rid;
+  q_keys : NoDup (map fst (turnq s))
+}.
+
+(* a step that leaves the queues alone *)
+Lemma qinv_frame s s' a old newc :
+  qinv s -> assoc_get (code s) a = Some old ->
+  turnq s' = turnq s -> turnlog s' = turnlog s -> turndone s' = turndone s ->
+  assoc_get (code s') a = Some newc ->
+  (forall b, b <> a -> assoc_get (code s') b = assoc_get (code s) b \/
+       (assoc_get (code s) b = None /\ exists c, assoc_get (code s') b = Some c /\
+          (nots c \/ exists p h, c = [ITaskStart p h] /\ h_seq (r_spec h) = false))) ->
+  (forall rid hd more, queue s rid = hd :: more -> ~ In a more) ->
+  nots newc -> (weight old = 1 -> weight newc = 1) -> qinv s'.
+Proof.
+  intros Q Ha Eq El Ed Hn Hoth Hnt Nn Hw.
+  assert (Hq : forall rid, queue s' rid = queue s rid) by (intros; unfold queue; rewrite Eq; reflexivity).
+  assert (Hmem : forall rid b, In b (queue s rid) -> b <> a -> assoc_get (code s') b = assoc_get (code s) b).
+  { intros rid b Hb Nb. destruct (Hoth b Nb) as [E|[E _]]; [exact E|].
+    destruct (q_live s Q rid b Hb) as [c [Hc _]]. congruence. }
+  split.
+  - intros rid b Hb. rewrite Hq in Hb. destruct (Nat.eq_dec b a) as [->|Nb].
+    + exists newc. split; [exact Hn|]. destruct (q_live s Q rid a Hb) as [c [Hc Hwc]]. rewrite Ha in Hc. inversion Hc; subst. auto.
+    + rewrite (Hmem rid b Hb Nb). apply (q_live s Q rid b Hb).
+  - intros rid hd more b Hqd Hb. rewrite Hq in Hqd. destruct (Nat.eq_dec b a) as [->|Nb].
+    + exfalso. apply (Hnt rid hd more Hqd Hb).
+    + rewrite (Hmem rid b); [apply (q_wait s Q rid hd more b Hqd Hb) | rewrite Hqd; right; exact Hb | exact Nb].
+  - intros rid. rewrite Hq. apply (q_nodup s Q).
+  - intros r1 r2 b. rewrite !Hq. apply (q_one s Q).
+  - intros b p h Hb Hs. rewrite Hq. destruct (Nat.eq_dec b a) as [->|Nb].
+    + rewrite Hn in Hb. inversion Hb; subst. specialize (Nn (ITaskStart p h) (or_introl eq_refl)). discriminate.
+    + destruct (Hoth b Nb) as [E|[_ [c [Hc [Nc|[p' [h' [Ec Hs']]]]]]]].
+      * rewrite E in Hb. apply (q_fresh s Q b p h Hb Hs).
+      * rewrite Hc in Hb. inversion Hb; subst. specialize (Nc _ (or_introl eq_refl)). discriminate.
+      * rewrite Hc in Hb. inversion Hb; subst. inversion H0; subst. congruence.
+  - intros b c Hb. destruct (Nat.eq_dec b a) as [->|Nb].
+    + rewrite Hn in Hb. inversion Hb; subst. left. exact Nn.
+    + destruct (Hoth b Nb) as [E|[_ [c' [Hc [Nc|[p' [h' [Ec _]]]]]]]].
+      * rewrite E in Hb. apply (q_sole s Q b c Hb).
+      * rewrite Hc in Hb. inversion Hb; subst. left. exact Nc.
+      * rewrite Hc in Hb. inversion Hb; subst. right. eauto.
+  - intros rid. rewrite Hq, El, Ed. apply (q_fifo s Q).
+  - rewrite Eq. apply (q_keys s Q).
+Qed.
+
+Lemma in_tl {A} (x : A) l : In x (tl l) -> In x l.
+Proof. destruct l; [intros []|intros H; right; exact H]. Qed.
+
+Theorem qinv_step P cfg s a s' ls : winv s -> qinv s -> mstep P cfg s a = Some (s', ls) -> qinv s'.
+Proof.
+  intros WI Q H. unfold mstep in H.
+  destruct (assoc_get (code s) a) as [[|i rest]|] eqn:Ha; try discriminate.
+  destruct (wi_bound s WI a _ Ha) as [Hlt W].
+  assert (Hfresh : assoc_get (code s) (next_actor s) = None).
+  { destruct (assoc_get (code s) (next_actor s)) eqn:E; [|reflexivity]. destruct (wi_bound s WI _ _ E). lia. }
+  assert (Hna : a <> next_actor s) by lia.
+  (* what is common to every step that does not touch the queues *)
+  assert (Generic : i <> ITaskDone -> (forall p h, i = IDispatch p h -> h_async (r_spec h) = false) ->
+            (forall rid hd more, queue s rid = hd :: more -> ~ In a more) -> nots rest -> qinv s').
+  { intros Hd Hp Hnt Nr.
+    destruct (step_turn_frame P cfg s a i rest s' ls H Hd Hp) as [Eq [El Ed]].
+    destruct (step_nots P cfg s a i rest s' ls Nr H) as [newc [Hn Nn]].
+    destruct (step_weight_actor P cfg s a i rest s' ls W H) as [newc' [Hn' [Hw|[Hw _]]]]; [|contradiction].
+    rewrite Hn in Hn'. inversion Hn'; subst newc'.
+    apply (qinv_frame s s' a (i :: rest) newc Q Ha Eq El Ed Hn); [|exact Hnt|exact Nn|intros E; lia].
+    intros b Nb. destruct (step_others P cfg s a i rest s' ls H Hna Hp b Nb) as [E|[-> E]]; [left; exact E|].
+    right. split; [exact Hfresh|]. eexists. split; [exact E|]. left. intros x [<-|[]]. reflexivity. }
+  destruct (q_sole s Q a _ Ha) as [Nold | [p0 [h0 E0]]].
+  - (* the stepping goroutine is past its start (or is no delivery at all) *)
+    assert (Nr : nots rest) by (intros x Hx; apply Nold; right; exact Hx).
+    assert (Hnt : forall rid hd more, queue s rid = hd :: more -> ~ In a more).
+    { intros rid hd more Hq Hin. destruct (q_wait s Q rid hd more a Hq Hin) as [p [h [Hc _]]]. rewrite Ha in Hc. inversion Hc; subst.
+      specialize (Nold _ (or_introl eq_refl)). discriminate. }
+    destruct i; try (apply Generic; [discriminate | intros; discriminate | exact Hnt | exact Nr]).
+    + (* IDispatch *)
+      destruct (h_async (r_spec h)) eqn:Hasync;
+        [|apply Generic; [discriminate | intros p' h' E; inversion E; subst; exact Hasync | exact Hnt | exact Nr]].
+      cbn [step_instr] in H. rewrite Hasync in H. inversion H; subst; clear H.
+      set (t := next_actor s) in *.
+      assert (Ht : forall rid, ~ In t (queue s rid)).
+      { intros rid Hin. destruct (q_live s Q rid t Hin) as [c [Hc _]]. congruence. }
+      assert (Hca : forall b, b <> a -> b <> t -> assoc_get (assoc_set (assoc_set (code s) t [ITaskStart p h]) a rest) b = assoc_get (code s) b).
+      { intros b N1 N2. rewrite assoc_get_set_other by congruence. rewrite assoc_get_set_other by congruence. reflexivity. }
+      assert (Hct : assoc_get (assoc_set (assoc_set (code s) t [ITaskStart p h]) a rest) t = Some [ITaskStart p h]).
+      { rewrite assoc_get_set_other by congruence. apply assoc_get_set_same. }
+      assert (Hcaa : assoc_get (assoc_set (assoc_set (code s) t [ITaskStart p h]) a rest) a = Some rest) by apply assoc_get_set_same.
+      destruct (h_seq (r_spec h)) eqn:Hseq.
+      * (* Sequential: queued behind everybody dispatched before *)
+        assert (Hq : forall rid, queue (cont {| registry := registry s; next_rid := next_rid s; next_pid := next_pid s; next_actor := S t;
+                       next_sid := next_sid s; executed := executed s; seqlocks := seqlocks s;
+                       inflight := S (inflight s); cancelled := cancelled s; store_log := store_log s;
+                       last_offset := last_offset s; store_mu := store_mu s; store_closed := store_closed s;
+                       waiters_done := waiters_done s; pubs := pubs s; tasks := tasks s ++ [(p, r_id h, t)]; entered := entered s;
+                       turnq := assoc_set (turnq s) (r_id h) (queue s (r_id h) ++ [t]);
+                       turnlog := turnlog s ++ [(r_id h, t)]; turndone := turndone s;
+                       code := assoc_set (code s) t [ITaskStart p h] |} a rest) rid =
+                     if Nat.eqb (r_id h) rid then queue s rid ++ [t] else queue s rid).
+        { intros rid. unfold queue at 1. cbn [cont set_code turnq]. fold (qof (assoc_set (turnq s) (r_id h) (queue s (r_id h) ++ [t])) rid).
+          destruct (Nat.eqb (r_id h) rid) eqn:E.
+          - apply Nat.eqb_eq in E. subst rid. apply qof_set_same.
+          - apply Nat.eqb_neq in E. rewrite qof_set_other by exact E. reflexivity. }
+        assert (Hsub : forall rid b, In b (if Nat.eqb (r_id h) rid then queue s rid ++ [t] else queue s rid) ->
+                        In b (queue s rid) \/ (b = t /\ rid = r_id h)).
+        { intros rid b Hb. destruct (Nat.eqb (r_id h) rid) eqn:E; [|left; exact Hb].
+          apply in_app_or in Hb. destruct Hb as [Hb|[<-|[]]]; [left; exact Hb|]. right. split; [reflexivity|]. apply Nat.eqb_eq in E. auto. }
+        split.
+        -- intros rid b Hb. rewrite Hq in Hb. cbn [cont set_code code]. destruct (Hsub rid b Hb) as [Hin|[-> ->]].
+           ++ destruct (Nat.eq_dec b a) as [->|Nb].
+              ** exists rest. split; [exact Hcaa|]. destruct (q_live s Q rid a Hin) as [c [Hc Hwc]]. rewrite Ha in Hc. inversion Hc; subst.
+                 rewrite weight_cons in Hwc. cbn [weight_i] in Hwc. lia.
+              ** rewrite Hca; [apply (q_live s Q rid b Hin) | exact Nb | intros ->; apply (Ht rid Hin)].
+           ++ exists [ITaskStart p h]. split; [exact Hct|reflexivity].
+        -- intros rid hd more b Hqd Hb. rewrite Hq in Hqd. cbn [cont set_code code].
+           destruct (Nat.eqb (r_id h) rid) eqn:E.
+           ++ apply Nat.eqb_eq in E. subst rid. destruct (queue s (r_id h)) as [|hd0 tl0] eqn:Eq0.
+              ** cbn in Hqd. inversion Hqd; subst. destruct Hb.
+              ** cbn in Hqd. inversion Hqd; subst. apply in_app_or in Hb. destruct Hb as [Hb|[<-|[]]].
+                 --- assert (Nb : b <> a) by (intros ->; apply (Hnt (r_id h) hd tl0 Eq0 Hb)).
+                     assert (Nt : b <> t) by (intros ->; apply (Ht (r_id h)); rewrite Eq0; right; exact Hb).
+                     rewrite (Hca b Nb Nt). apply (q_wait s Q (r_id h) hd tl0 b Eq0 Hb).
+                 --- exists p, h. split; [exact Hct|]. split; [reflexivity|exact Hseq].
+           ++ assert (Nb : b <> a) by (intros ->; apply (Hnt rid hd more Hqd Hb)).
+              assert (Nt : b <> t) by (intros ->; apply (Ht rid); rewrite Hqd; right; exact Hb).
+              rewrite (Hca b Nb Nt). apply (q_wait s Q rid hd more b Hqd Hb).
+        -- intros rid. rewrite Hq. destruct (Nat.eqb (r_id h) rid); [|apply (q_nodup s Q)].
+           apply nodup_snoc; [apply (q_nodup s Q) | apply Ht].
+        -- intros r1 r2 b H1 H2. rewrite Hq in H1, H2.
+           destruct (Hsub r1 b H1) as [I1|[E1 R1]]; destruct (Hsub r2 b H2) as [I2|[E2 R2]].
+           ++ apply (q_one s Q r1 r2 b I1 I2).
+           ++ subst b. exfalso. apply (Ht r1 I1).
+           ++ subst b. exfalso. apply (Ht r2 I2).
+           ++ congruence.
+        -- intros b p' h' Hb Hs'. rewrite Hq. cbn [cont set_code code] in Hb.
+           destruct (Nat.eq_dec b a) as [->|Nb].
+           ++ rewrite Hcaa in Hb. inversion Hb; subst. specialize (Nr (ITaskStart p' h') (or_introl eq_refl)). discriminate.
+           ++ destruct (Nat.eq_dec b t) as [->|Nt].
+              ** rewrite Hct in Hb. inversion Hb; subst. rewrite Nat.eqb_refl. apply in_or_app. right. left. reflexivity.
+              ** rewrite (Hca b Nb Nt) in Hb. pose proof (q_fresh s Q b p' h' Hb Hs') as Hin.
+                 destruct (Nat.eqb (r_id h) (r_id h')); [apply in_or_app; left; exact Hin | exact Hin].
+        -- intros b c Hb. cbn [cont set_code code] in Hb.
+           destruct (Nat.eq_dec b a) as [->|Nb].
+           ++ rewrite Hcaa in Hb. inversion Hb; subst. left. exact Nr.
+           ++ destruct (Nat.eq_dec b t) as [->|Nt].
+              ** rewrite Hct in Hb. inversion Hb; subst. right. eauto.
+              ** rewrite (Hca b Nb Nt) in Hb. apply (q_sole s Q b c Hb).
+        -- intros rid. rewrite Hq. cbn [cont set_code turnlog turndone]. rewrite on_app, (q_fifo s Q rid), <- app_assoc. f_equal.
+           assert (E1 : on rid [(r_id h, t)] = if Nat.eqb (r_id h) rid then [t] else [])
+             by (unfold on; cbn [filter fst]; destruct (Nat.eqb (r_id h) rid); reflexivity).
+           rewrite E1. destruct (Nat.eqb (r_id h) rid); [reflexivity | apply app_nil_r].
+        -- cbn [cont set_code turnq]. rewrite keys_set. destruct (existsb (Nat.eqb (r_id h)) (map fst (turnq s))) eqn:Ex; [apply (q_keys s Q)|].
+           apply nodup_snoc; [apply (q_keys s Q)|]. intros Hin.
+           assert (existsb (Nat.eqb (r_id h)) (map fst (turnq s)) = true) by (apply existsb_exists; exists (r_id h); split; [exact Hin|apply Nat.eqb_refl]).
+           congruence.
+      * (* not Sequential: the queues are untouched, the new goroutine waits for nobody *)
+        eapply (qinv_frame s _ a (IDispatch p h :: rest) rest Q Ha); try reflexivity.
+        -- cbn [cont set_code code]. exact Hcaa.
+        -- intros b Nb. cbn [cont set_code code]. destruct (Nat.eq_dec b t) as [->|Nt].
+           ++ right. split; [exact Hfresh|]. eexists. split; [exact Hct|]. right. exists p, h. split; [reflexivity|exact Hseq].
+           ++ left. apply Hca; assumption.
+        -- exact Hnt.
+        -- exact Nr.
+        -- rewrite weight_cons. cbn [weight_i]. lia.
+    + (* ITaskDone: the goroutine leaves the queue it heads *)
+      assert (rest = []) by (apply (W [] ITaskDone rest eq_refl); reflexivity). subst rest.
+      cbn [step_instr] in H. inversion H; subst; clear H.
+      assert (Hq : forall rid, queue (cont {| registry := registry s; next_rid := next_rid s; next_pid := next_pid s; next_actor := next_actor s;
+                      next_sid := next_sid s; executed := executed s; seqlocks := seqlocks s;
+                      inflight := pred (inflight s); cancelled := cancelled s; store_log := store_log s;
+                      last_offset := last_offset s; store_mu := store_mu s; store_closed := store_closed s;
+                      waiters_done := waiters_done s; pubs := pubs s; tasks := tasks s; entered := entered s;
+                      turnq := pop_turn (turnq s) a; turnlog := turnlog s; turndone := turndone s ++ popped (turnq s) a;
+                      code := code s |} a []) rid =
+                   if at_head (queue s rid) a then tl (queue s rid) else queue s rid).
+      { intros rid. unfold queue at 1. cbn [cont set_code turnq]. fold (qof (pop_turn (turnq s) a) rid). rewrite qof_pop. reflexivity. }
+      assert (Hsub : forall rid b, In b (if at_head (queue s rid) a then tl (queue s rid) else queue s rid) -> In b (queue s rid) /\ b <> a).
+      { intros rid b Hb. destruct (at_head (queue s rid) a) eqn:E.
+        - apply at_head_spec in E. destruct E as [more E]. rewrite E in Hb. cbn [tl] in Hb. split; [rewrite E; right; exact Hb|].
+          intros ->. pose proof (q_nodup s Q rid) as ND. rewrite E in ND. apply NoDup_cons_iff in ND. tauto.
+        - split; [exact Hb|]. intros ->. destruct (queue s rid) as [|hd more] eqn:Eq0; [destruct Hb|].
+          destruct Hb as [->|Hb]; [cbn [at_head] in E; rewrite Nat.eqb_refl in E; discriminate | apply (Hnt rid hd more Eq0 Hb)]. }
+      assert (Hca : forall b, b <> a -> assoc_get (assoc_set (code s) a []) b = assoc_get (code s) b)
+        by (intros b Nb; rewrite assoc_get_set_other by congruence; reflexivity).
+      split.
+      * intros rid b Hb. rewrite Hq in Hb. destruct (Hsub rid b Hb) as [Hin Nb]. cbn [cont set_code code].
+        rewrite (Hca b Nb). apply (q_live s Q rid b Hin).
+      * intros rid hd more b Hqd Hb. rewrite Hq in Hqd. cbn [cont set_code code].
+        assert (Hin' : In b (if at_head (queue s rid) a then tl (queue s rid) else queue s rid)) by (rewrite Hqd; right; exact Hb).
+        destruct (Hsub rid b Hin') as [_ Nb]. rewrite (Hca b Nb).
+        destruct (at_head (queue s rid) a) eqn:E.
+        -- apply at_head_spec in E. destruct E as [more1 E]. rewrite E in Hqd. cbn [tl] in Hqd. subst more1.
+           apply (q_wait s Q rid a (hd :: more) b E). right. exact Hb.
+        -- apply (q_wait s Q rid hd more b Hqd Hb).
+      * intros rid. rewrite Hq. destruct (at_head (queue s rid) a); [|apply (q_nodup s Q)].
+        pose proof (q_nodup s Q rid) as ND. destruct (queue s rid); [exact ND|]. apply NoDup_cons_iff in ND. apply ND.
+      * intros r1 r2 b H1 H2. rewrite Hq in H1, H2. apply (q_one s Q r1 r2 b); [apply (Hsub r1 b H1)|apply (Hsub r2 b H2)].
+      * intros b p h Hb Hs. rewrite Hq. cbn [cont set_code code] in Hb. destruct (Nat.eq_dec b a) as [->|Nb].
+        -- rewrite assoc_get_set_same in Hb. discriminate.
+        -- rewrite (Hca b Nb) in Hb. pose proof (q_fresh s Q b p h Hb Hs) as Hin.
+           destruct (at_head (queue s (r_id h)) a) eqn:E; [|exact Hin].
+           apply at_head_spec in E. destruct E as [more E]. rewrite E in Hin |- *. destruct Hin as [->|Hin]; [contradiction Nb; reflexivity|exact Hin].
+      * intros b c Hb. cbn [cont set_code code] in Hb. destruct (Nat.eq_dec b a) as [->|Nb].
+        -- rewrite assoc_get_set_same in Hb. inversion Hb; subst. left. apply nots_nil.
+        -- rewrite (Hca b Nb) in Hb. apply (q_sole s Q b c Hb).
+      * intros rid. rewrite Hq. cbn [cont set_code turnlog turndone]. rewrite on_app, (on_popped _ a rid (q_keys s Q)), (q_fifo s Q rid).
+        rewrite <- (queue_qof s rid), <- app_assoc. f_equal.
+        destruct (at_head (queue s rid) a) eqn:E; [|reflexivity].
+        apply at_head_spec in E. destruct E as [more E]. rewrite E. reflexivity.
+      * cbn [cont set_code turnq]. rewrite pop_keys. apply (q_keys s Q).
+  - (* a fresh delivery goroutine starts: it heads its queue if its handler is Sequential *)
+    inversion E0; subst i rest.
+    destruct (task_start_decision P cfg s a p0 h0 [] s' ls H) as [Hn [_ Hhead]].
+    apply Generic; [discriminate | intros; discriminate | | apply nots_nil].
+    intros rid hd more Hq Hin. destruct (q_wait s Q rid hd more a Hq Hin) as [p [h [Hc [Hr Hs]]]].
+    rewrite Ha in Hc. inversion Hc; subst p h. specialize (Hhead Hs). rewrite Hr, Hq in Hhead.
+    cbn [at_head] in Hhead. apply Nat.eqb_eq in Hhead. subst hd.
+    pose proof (q_nodup s Q rid) as ND. rewrite Hq in ND. apply NoDup_cons_iff in ND. tauto.
+Qed.
+
+Lemma qinv_init threads : qinv (init_state threads).
+Proof.
+  split; unfold queue; cbn [init_state turnq turnlog turndone assoc_get].
+  - intros rid b [].
+  - intros rid hd more b E. discriminate.
+  - intros rid. constructor.
+  - intros r1 r2 b [].
+  - intros b p h Hb _. exfalso. cbn [code] in Hb.
+    assert (Hall : forall n (l : list (list action)) c, assoc_get (combine (seq n (length l)) (map acts l)) b = Some c -> nots c).
+    { intros n l. revert n. induction l as [|x l IH]; intros n c Hc; [discriminate|].
+      cbn [length seq map combine assoc_get] in Hc. destruct (Nat.eqb n b); [inversion Hc; apply nots_acts | apply (IH (S n) c Hc)]. }
+    specialize (Hall 0 threads _ Hb (ITaskStart p h) (or_introl eq_refl)). discriminate.
+  - intros b c Hb. left. cbn [code] in Hb.
+    assert (Hall : forall n (l : list (list action)) c, assoc_get (combine (seq n (length l)) (map acts l)) b = Some c -> nots c).
+    { intros n l. revert n. induction l as [|x l IH]; intros n c0 Hc; [discriminate|].
+      cbn [length seq map combine assoc_get] in Hc. destruct (Nat.eqb n b); [inversion Hc; apply nots_acts | apply (IH (S n) c0 Hc)]. }
+    apply (Hall 0 threads c Hb).
+  - intros rid. reflexivity.
+  - constructor.
+Qed.
+
+Lemma qinv_run P cfg : forall sched s, winv s -> qinv s -> qinv (fst (run P cfg s sched)).
+Proof.
+  induction sched as [|a r IH]; intros s I Q; cbn [run]; [exact Q|].
+  destruct (mstep P cfg s a) as [[s' ls]|] eqn:E.
+  - specialize (IH s' (winv_step P cfg s a s' ls I E) (qinv_step P cfg s a s' ls I Q E)). destruct (run P cfg s' r). exact IH.
+  - apply IH; assumption.
+Qed.
+
+(* C07, over every schedule: the turn-queue discipline *)
+Theorem turn_queue_discipline P cfg s : reachable P cfg s -> qinv s.
+Proof. intros [threads [sched ->]]. apply qinv_run; [apply winv_init|apply qinv_init]. Qed.
+
+(* ... so the deliveries to an Async+Sequential handler finish in exactly the order in which they were dispatched:
+   what has been dispatched is what has finished followed by what is still queued *)
+Theorem async_sequential_fifo P cfg s : reachable P cfg s ->
+  forall rid, on rid (turnlog s) = on rid (turndone s) ++ queue s rid.
+Proof. intros R. apply (q_fifo s (turn_queue_discipline P cfg s R)). Qed.
+
+(* ... and a delivery starts (and so its handler runs) only when every delivery dispatched before it has finished:
+   when the start step is taken the goroutine heads the queue, so by the theorem above everything dispatched before
+   it is in the finished part *)
+Theorem async_sequential_starts_in_turn P cfg s a p h rest s' ls : reachable P cfg s ->
+  h_seq (r_spec h) = true ->
+  step_instr P cfg s a (ITaskStart p h) rest = Some (s', ls) ->
+  exists later, on (r_id h) (turnlog s) = on (r_id h) (turndone s) ++ a :: later.
+Proof.
+  intros R Hs H. destruct (task_start_decision P cfg s a p h rest s' ls H) as [_ [_ Hh]].
+  specialize (Hh Hs). apply at_head_spec in Hh. destruct Hh as [more E]. exists more.
+  rewrite (async_sequential_fifo P cfg s R), E. reflexivity.
+Qed.
+
+(* the dispatch step of an Async+Sequential handler puts the new delivery goroutine at the end of the handler's queue and
+   of the dispatch log - on the publishing goroutine, before the goroutine is started *)
+Theorem dispatch_queues_at_end P cfg s a p h rest s' ls :
+  h_async (r_spec h) = true -> h_seq (r_spec h) = true ->
+  step_instr P cfg s a (IDispatch p h) rest = Some (s', ls) ->
+  turnlog s' = turnlog s ++ [(r_id h, next_actor s)] /\ queue s' (r_id h) = queue s (r_id h) ++ [next_actor s] /\
+  (a <> next_actor s -> assoc_get (code s') (next_actor s) = Some [ITaskStart p h]) /\
+  assoc_get (code s') a = Some rest.
+Proof.
+  intros Ha Hs H. cbn [step_instr] in H. rewrite Ha, Hs in H. inversion H; subst; clear H.
+  cbn [cont set_code turnlog]. split; [reflexivity|]. split.
+  - unfold queue at 1. cbn [cont set_code turnq]. rewrite assoc_get_set_same. reflexivity.
+  - split; [|apply code_cont]. intros N. cbn [cont set_code code]. rewrite assoc_get_set_other by congruence. apply assoc_get_set_same.
+Qed.
+
+(* everybody behind the head of a queue is a delivery that has not started *)
+Theorem queued_deliveries_have_not_started P cfg s : reachable P cfg s ->
+  forall rid hd more b, queue s rid = hd :: more -> In b more ->
+    exists p h, assoc_get (code s) b = Some [ITaskStart p h] /\ r_id h = rid /\ h_seq (r_spec h) = true.
+Proof. intros R. apply (q_wait s (turn_queue_discipline P cfg s R)). Qed.
+
+(* ================================================================== *)
 (* C03: progress.  In a reachable state in which (H1) the goroutines waiting for handler mutexes do not wait in a
    cycle - the documented exception is exactly such a cycle - and (H2) no goroutine sits in Wait, in Shutdown's
    waiter or select, or crashed, while it is itself an in-flight delivery or holds a handler mutex (Wait and
@@ -1987,6 +2463,8 @@ Section Progress.
   Variable rank : actor -> nat.
   Hypothesis H1 : forall a h rest b, assoc_get (code s) a = Some (ILock h :: rest) ->
                     assoc_get (seqlocks s) (r_id h) = Some b -> rank b < rank a.
+  Hypothesis H1t : forall a p h rest b more, assoc_get (code s) a = Some (ITaskStart p h :: rest) ->
+                    h_seq (r_spec h) = true -> queue s (r_id h) = b :: more -> b <> a -> rank b < rank a.
   Hypothesis H2 : forall a i rest, assoc_get (code s) a = Some (i :: rest) -> stuckish i = true ->
                     weight (i :: rest) = 0 /\ forall rid, held rid (i :: rest) = 0.
   Hypothesis H3 : forall a sid c rest, assoc_get (code s) a = Some (IShutdownSelect sid c :: rest) ->
@@ -1994,22 +2472,39 @@ Section Progress.
 
   Definition enabled_somewhere : Prop := exists b s' ls, mstep P cfg s b = Some (s', ls).
 
-  (* a goroutine that is not in Wait / Shutdown / crashed: either it can step, or it waits for a mutex whose holder
-     (further down the acyclic wait-for order) leads to somebody who can *)
+  (* a delivery that waits for its turn waits for the head of its queue, which is an unfinished delivery *)
+  Lemma turn_waits_for : forall a p h rest, assoc_get (code s) a = Some (ITaskStart p h :: rest) ->
+    h_seq (r_spec h) = true -> at_head (queue s (r_id h)) a = false ->
+    exists b more cb, queue s (r_id h) = b :: more /\ b <> a /\ assoc_get (code s) b = Some cb /\ weight cb = 1.
+  Proof.
+    intros a p h rest Ha Hs Hh. pose proof (turn_queue_discipline P cfg s R) as Q.
+    destruct (q_sole s Q a _ Ha) as [N|[p' [h' E]]]; [specialize (N _ (or_introl eq_refl)); discriminate|].
+    inversion E; subst p' h' rest.
+    pose proof (q_fresh s Q a p h Ha Hs) as Hin.
+    destruct (queue s (r_id h)) as [|b more] eqn:Eq; [destruct Hin|].
+    assert (Nb : b <> a) by (intros ->; cbn [at_head] in Hh; rewrite Nat.eqb_refl in Hh; discriminate).
+    destruct (q_live s Q (r_id h) b) as [cb [Hcb Hw]]; [rewrite Eq; left; reflexivity|].
+    exists b, more, cb. auto.
+  Qed.
+
+  (* a goroutine that is not in Wait / Shutdown / crashed: either it can step, or it waits for a mutex or for its
+     turn, and the holder (further down the acyclic wait-for order) leads to somebody who can *)
   Lemma chain_progress : forall n a i rest, rank a <= n ->
     assoc_get (code s) a = Some (i :: rest) -> stuckish i = false -> enabled_somewhere.
   Proof.
     induction n as [|n IH]; intros a i rest Hr Ha Hs.
     - destruct (step_instr P cfg s a i rest) as [[s' ls]|] eqn:E.
       + exists a, s', ls. unfold mstep. rewrite Ha. exact E.
-      + destruct (only_these_block P cfg s a i rest E) as [[h ->]|[[p ->]|[->|[[sid ->]|[[sid [c ->]]| ->]]]]]; try discriminate Hs.
+      + destruct (only_these_block P cfg s a i rest E) as [[h ->]|[[p ->]|[->|[[sid ->]|[[sid [c ->]]|[->|[p [h [-> [Hq Hh]]]]]]]]]]; try discriminate Hs.
         * cbn [step_instr] in E. destruct (assoc_get (seqlocks s) (r_id h)) as [b|] eqn:Eb; [|discriminate].
           pose proof (H1 a h rest b Ha Eb). lia.
         * cbn [step_instr] in E. destruct (store_mu s) as [b|] eqn:Eb; [|discriminate].
           destruct (store_lock_holder_runs P cfg s R b Eb) as [s' [ls Hb]]. exists b, s', ls. exact Hb.
+        * destruct (turn_waits_for a p h rest Ha Hq Hh) as [b [more [cb [Eq [Nb _]]]]].
+          pose proof (H1t a p h rest b more Ha Hq Eq Nb). lia.
     - destruct (step_instr P cfg s a i rest) as [[s' ls]|] eqn:E.
       + exists a, s', ls. unfold mstep. rewrite Ha. exact E.
-      + destruct (only_these_block P cfg s a i rest E) as [[h ->]|[[p ->]|[->|[[sid ->]|[[sid [c ->]]| ->]]]]]; try discriminate Hs.
+      + destruct (only_these_block P cfg s a i rest E) as [[h ->]|[[p ->]|[->|[[sid ->]|[[sid [c ->]]|[->|[p [h [-> [Hq Hh]]]]]]]]]]; try discriminate Hs.
         * cbn [step_instr] in E. destruct (assoc_get (seqlocks s) (r_id h)) as [b|] eqn:Eb; [|discriminate].
           pose proof (H1 a h rest b Ha Eb) as Hlt.
           destruct (no_orphaned_handler_lock P cfg s R (r_id h) b Eb) as [cb [Hcb Hheld]].
@@ -2019,6 +2514,12 @@ Section Progress.
           -- apply (IH b ib restb); [lia | exact Hcb | exact Sb].
         * cbn [step_instr] in E. destruct (store_mu s) as [b|] eqn:Eb; [|discriminate].
           destruct (store_lock_holder_runs P cfg s R b Eb) as [s' [ls Hb]]. exists b, s', ls. exact Hb.
+        * destruct (turn_waits_for a p h rest Ha Hq Hh) as [b [more [cb [Eq [Nb [Hcb Hw]]]]]].
+          pose proof (H1t a p h rest b more Ha Hq Eq Nb) as Hlt.
+          destruct cb as [|ib restb]; [cbn in Hw; lia|].
+          destruct (stuckish ib) eqn:Sb.
+          -- destruct (H2 b ib restb Hcb Sb) as [Hz _]. lia.
+          -- apply (IH b ib restb); [lia | exact Hcb | exact Sb].
   Qed.
 
   (* with deliveries in flight, one of them is not stuck in Wait / Shutdown, so the chain lemma applies to it *)
@@ -2256,12 +2757,14 @@ Qed.
 Theorem progress_partial2 P cfg s : reachable P cfg s ->
   forall rank : actor -> nat,
   (forall a h rest b, assoc_get (code s) a = Some (ILock h :: rest) -> assoc_get (seqlocks s) (r_id h) = Some b -> rank b < rank a) ->
+  (forall a p h rest b more, assoc_get (code s) a = Some (ITaskStart p h :: rest) ->
+     h_seq (r_spec h) = true -> queue s (r_id h) = b :: more -> b <> a -> rank b < rank a) ->
   (forall a i rest, assoc_get (code s) a = Some (i :: rest) -> stuckish i = true ->
      weight (i :: rest) = 0 /\ forall rid, held rid (i :: rest) = 0) ->
   (exists a i rest, assoc_get (code s) a = Some (i :: rest) /\ i <> ICrashed) ->
   exists b s' ls, mstep P cfg s b = Some (s', ls).
 Proof.
-  intros R rank H1 H2 Hex. apply (progress_partial P cfg s R rank H1 H2 (shutdown_has_its_waiter P cfg s R) Hex).
+  intros R rank H1 H1t H2 Hex. apply (progress_partial P cfg s R rank H1 H1t H2 (shutdown_has_its_waiter P cfg s R) Hex).
 Qed.
 
 (* ================================================================== *)
@@ -2453,16 +2956,19 @@ Qed.
 
 (* PROGRESS: for programs whose handlers, filters and hooks do not call Wait or Shutdown, in every reachable state in
    which no goroutine has died of an unrecovered panic (which in Go ends the process) and the goroutines waiting for
-   handler mutexes do not wait in a cycle (the documented exception), some goroutine can step whenever one is unfinished *)
+   handler mutexes - or, as Async+Sequential deliveries, for the delivery queued before them - do not wait in a cycle
+   (the documented exception), some goroutine can step whenever one is unfinished *)
 Theorem progress P cfg s : Pwf P -> reachable P cfg s ->
   forall rank : actor -> nat,
   (forall a h rest b, assoc_get (code s) a = Some (ILock h :: rest) -> assoc_get (seqlocks s) (r_id h) = Some b -> rank b < rank a) ->
+  (forall a p h rest b more, assoc_get (code s) a = Some (ITaskStart p h :: rest) ->
+     h_seq (r_spec h) = true -> queue s (r_id h) = b :: more -> b <> a -> rank b < rank a) ->
   (forall a rest, assoc_get (code s) a <> Some (ICrashed :: rest)) ->
   (exists a i rest, assoc_get (code s) a = Some (i :: rest)) ->
   exists b s' ls, mstep P cfg s b = Some (s', ls).
 Proof.
-  intros HP R rank H1 Hnc [a [i [rest Ha]]].
-  apply (progress_partial2 P cfg s R rank H1).
+  intros HP R rank H1 H1t Hnc [a [i [rest Ha]]].
+  apply (progress_partial2 P cfg s R rank H1 H1t).
   - intros a0 i0 rest0 Ha0 St. destruct i0; try discriminate St.
     + destruct a1; try discriminate St. apply (waiting_goroutines_are_outside_handlers P cfg s HP R a0 _ rest0 Ha0). reflexivity.
     + apply (waiting_goroutines_are_outside_handlers P cfg s HP R a0 _ rest0 Ha0). reflexivity.
